@@ -50,6 +50,9 @@ func build(tier string) []*vkit.Scenario {
 	ntD := func(m map[string]int) bool { return m["messages_on_wire"] > 0 && m["interleave_opportunities"] > 0 }
 	for _, m := range ekit.Modes {
 		for _, k := range []int{1 << 20, 5} {
+			if !thorough && k == 5 && m != ekit.LT {
+				continue // quick: the small-socket variant (40-100 k executions each) only in LT
+			}
 			a := acfg{mode: m, exec: "go", writers: 2, f: 2, k: k, p: 1, end: "none"}
 			if k == 5 {
 				a.k = 16 // the 101 response and the frames go out in several partial writes
@@ -67,6 +70,9 @@ func build(tier string) []*vkit.Scenario {
 		}
 	}
 	for _, m := range ekit.Modes {
+		if !thorough && m == ekit.ONESHOT {
+			continue
+		}
 		a := acfg{mode: m, exec: "go", writers: 2, f: 2, k: 1 << 20, p: 1, end: "tclose"}
 		if thorough {
 			a.p = 2
@@ -237,9 +243,9 @@ func main() {
 	settle()
 	vkit.Main(&vkit.Spec{
 		Property: "C14", Level: "model_checking",
-		Rule: "one scenario = family x configuration: (a) epoll mode x server executor x client frame script (2-3 messages, fragmented or not, 1-2 bursts, optionally a frame in the same burst as the upgrade request) x ending (peer FIN, peer RST, Close from a message handler, Close from another thread) on the real nbhttp engine + Upgrader.Upgrade; (b) writer scripts (WriteMessage of 2F+1 bytes = 3 fragments, single frames, pings, WriteFrame sequences) of 2-3 threads on a direct-mode Conn; (c) the same writers on a send-queue Conn from Upgrade scenario 4 x queue limit x failing k-th write x close source (none, peer EOF, Close + virtual close delay); (d) two writers on the engine-backed Conn x socket capacity; every interleaving within the preemption bound is executed on the real code; non-trivial = the scenario delivered messages and ran OnClose (a) / put messages on the wire while a second writer was inside its call between two fragments (b, d) / put messages on the wire or delivered inbound messages (c)",
+		Rule: "one scenario = family x configuration. (a) epoll mode x server executor (goroutine per call, default task pool, inline) x client frame script (0-3 messages, one optionally fragmented, 1-2 bursts; conforming client that waits for the 101 response, or a frame in the same burst as the upgrade request, or bursts sent without waiting) x ending (peer FIN, peer RST, Close from a message handler, from OnOpen, from another thread, FIN and Close together), optionally with the handler echoing through WriteMessage, on the real nbhttp engine + Upgrader.Upgrade scenario 1; (b) writer scripts (WriteMessage of 2F+1 bytes = 3 fragments, single frames, pings, a WriteFrame sequence) of 2-3 threads on a direct-mode server Conn; (c) the same writers on a Conn from Upgrade scenario 4 (unknown net.Conn type, read loop started by Upgrade) with the send queue x queue limit x failing k-th write x close source (none, peer EOF, Close + virtual close delay, a writer that closes) x inbound messages (with echo), and without the send queue; (d) two writers on the engine-backed Conn x socket capacity (everything fits / 16 bytes) x no close / Close from another thread. Every interleaving within the preemption bound is executed on the real code. Non-trivial = the scenario delivered messages and ran OnClose (a) / put messages on the wire while a second writer was inside its call between two fragments of the first (b, d) / put messages on the wire or delivered inbound messages (c)",
 		Assumptions: []string{
-			"sequentially consistent interleavings at lock / atomic / channel / syscall / timer operations and at the harness points (fake conn Write/Read/Close, inside every callback); unsynchronised field accesses between two such points are not interleaved",
+			"sequentially consistent interleavings at lock / atomic / channel / syscall / timer operations and at the harness points (fake conn Write/Read/Close, inside every callback); unsynchronised field accesses are interleaved only for the fields the overlay generator lists as racy (cmd/ovgen racyFields: websocket.Conn.closed, nbio.Conn.closed, ... - not nbio.Conn.session, which Upgrade swaps without a lock)",
 			"covered upgrade paths: scenario 1 (*nbio.Conn owned by the engine, all three epoll modes, IOModNonBlocking) and scenario 4 (unknown net.Conn type: blocking mode with own read loop and send queue). NOT covered: scenarios 2, 3 and the transfer-to-poller variants need a real *net.TCPConn / llib *tls.Conn on real descriptors and real goroutines, out of reach of the cooperative scheduler; their ordering rests on the same Execute / MustExecute queue, Engine.SyncCall and send-queue code explored here",
 			"unit of atomicity on the wire: one WriteMessage call (all its fragments) or one WriteFrame call (one frame); a multi-call WriteFrame sequence is only required to stay whole when the other writers send control frames (RFC 6455 allows those between fragments) - nbio has no API to reserve the connection across calls",
 			"order on the wire is only constrained by real-time precedence (a call that returned before another was made) and program order of one thread",
@@ -248,6 +254,6 @@ func main() {
 			"callback part: loss of inbound messages is C02/C12's subject; here delivered messages must be an in-order prefix of the wire",
 			"the close callback is owed once the connection has ended and Upgrade had succeeded",
 		},
-		Build: build, QuickBudget: 25 * time.Second, ThoroughBudget: 12 * time.Minute, MinNonTrivial: 20,
+		Build: build, QuickBudget: 45 * time.Second, ThoroughBudget: 12 * time.Minute, MinNonTrivial: 40,
 	})
 }
